@@ -248,6 +248,19 @@ def check_c03(prop, tier, seed):
     runs += n
     for sig, d in found:
         v.violation(sig, d)
+    # groupby over a source of another flavour (an async iterator without aclose): closing must not depend on it
+    from . import eng_groupby  # noqa: PLC0415
+    gviol, gtot, _ = eng_groupby.collect("quick", ["C04"])
+    runs += gtot.get("replays", 0)
+    for p_, sig, detail in gviol:
+        if sig.endswith("+source-without-aclose"):
+            v.violation("C03/groupby/" + sig.split("/", 2)[2].replace("+source-without-aclose", "") + "-with-iterable-flavour", detail)
+    # the argument of scoped_iter: the same history over every kind of iterable
+    from . import eng_handles  # noqa: PLC0415
+    found, n2, hst = eng_handles.flavour_dependence(seed)
+    runs += n2
+    for sig, d in found:
+        v.violation(sig, d)
     bad, checked = kinds_table(tm.load_lib())
     for name, why in bad:
         v.violation(f"C03/{name}/returns-plain-value", {"engine": "kinds", "expected": "awaitable | async iterator | async context manager", "observed": why})
@@ -257,7 +270,7 @@ def check_c03(prop, tier, seed):
                       "a failing use that a flavour makes invisible (a plain list cannot fail) is skipped for that flavour"]
     return v.finish({
         "states": stats["states"], "transitions": stats["transitions"], "traces_validated_against_impl": runs,
-        "cases": len(chosen), "cases_available": len(full) + len(faults), "public_callables_checked": checked, "exitstack_flavour_replays": n, "exitstack_model": xst,
+        "cases": len(chosen), "cases_available": len(full) + len(faults), "public_callables_checked": checked, "exitstack_flavour_replays": n, "exitstack_model": xst, "scoped_iter_flavour_replays": n2, "handles_model": hst,
         "evaluations": runs, "distinct_nontrivial": len([c for c in chosen if nontrivial(c)]), "exhaustive": len(chosen) == len(full) + len(faults),
         "rule": "ToolMachine cases (full consumption and single faults) x all assignments of 6 iterable flavours to <=2 iterable parameters (sampled for 3) x 7 callable flavours; ExitStack histories x 5 concrete kinds per entry class",
         "checker_cmd": "tlc spec/ToolMachine.tla (case enumeration)",
